@@ -9,7 +9,7 @@ import json
 import warnings
 
 from ..ctx import Workload
-from ..gen import corrupt
+from ..gen import corrupt, prime
 from ..gen.objects import ObjGen
 from ..oracles import validator
 from ..spec import model as M
@@ -162,6 +162,8 @@ def lenient_history(ver, t, o):
 def judge(ctx, ver, t, o, label, where, routes, is_base=False, history=False):
     if history:
         try:
+            # its literal values were first seen in the other spec version / other precision contexts ...
+            ctx.count("priming_calls", prime.prime(o))
             lenient_history(ver, t, o)
             ctx.count("lenient_histories")
         except Exception:
@@ -359,9 +361,9 @@ def wl_native_timestamps(ctx, rng, i):
 
 
 WORKLOADS = [
-    Workload("native-timestamps", wl_native_timestamps, quick=lambda: len(TS_SLOTS), thorough=lambda: len(TS_SLOTS) * 4),
-    Workload("bases", wl_bases, quick=lambda: len(BASES) * 2, thorough=lambda: len(BASES) * 8, exhaustive=True),
-    Workload("nearvalid", wl_nearvalid, quick=300, thorough=20000),
+    Workload("native-timestamps", wl_native_timestamps, quick=lambda: len(TS_SLOTS), thorough=lambda: len(TS_SLOTS) * 20),
+    Workload("bases", wl_bases, quick=lambda: len(BASES) * 2, thorough=lambda: len(BASES) * 16, exhaustive=True),
+    Workload("nearvalid", wl_nearvalid, quick=300, thorough=80000),
 ]
 
 
